@@ -231,8 +231,9 @@ func coerceGrid(r *rng.R, n int) []coerceCase {
 	}
 	// time
 	t0 := time.Date(2024, 5, 6, 7, 8, 9, 0, time.UTC)
-	for _, layout := range []string{"RFC3339", "2006-01-02", "02/01/2006 15:04", time.RFC1123} {
-		for _, s := range []string{t0.Format(time.RFC3339), "2024-05-06", "06/05/2024 07:08", t0.Format(time.RFC1123), "2024-05-06T07:08:09+02:00", "zz", "2024-13-40", "2024-05-06T07:08:09.123456789Z"} {
+	for _, layout := range []string{"RFC3339", "2006-01-02", "02/01/2006 15:04", time.RFC1123, "20060102", "2006", "150405", "20060102150405"} {
+		for _, s := range []string{t0.Format(time.RFC3339), "2024-05-06", "06/05/2024 07:08", t0.Format(time.RFC1123), "2024-05-06T07:08:09+02:00", "zz", "2024-13-40", "2024-05-06T07:08:09.123456789Z",
+			"20240131", "2024", "070809", "20240506070809", "1733007600", "0", "-5", "1e3"} {
 			out = append(out, coerceCase{"time", layout, eng.VStr(s)})
 		}
 		out = append(out, coerceCase{"time", layout, eng.VTime(t0)}, coerceCase{"time", layout, eng.VInt(1715000000)}, coerceCase{"time", layout, eng.V{K: "i", IK: "i64", I: -5}},
